@@ -285,7 +285,7 @@ def c16_runs(tier):
     root = os.path.join(vlib.scratch(), "c16")
     jobs = []
     k = 0
-    opts = ["default", "user", "path_rel", "path_abs", "path_user"]
+    opts = ["default", "user", "path_rel", "path_abs", "path_user", "path_rel_user"]
     for a in agents:
         for o in opts:
             for pr in C16_PRIORS:
@@ -305,8 +305,8 @@ def c16_runs(tier):
             f.write("package main\n")
         args = [a["name"]]
         custom = ""
-        user = o in ("user", "path_user")
-        if o == "path_rel":
+        user = o in ("user", "path_user", "path_rel_user")
+        if o in ("path_rel", "path_rel_user"):
             custom = "custom/rel"
         elif o in ("path_abs", "path_user"):
             custom = os.path.join(other, "abs")
